@@ -339,6 +339,10 @@ def finish(ctx: Ctx, failing_input_search=None) -> int:
         violations += 1
     for l in printed:
         print(l, flush=True)
+    if os.environ.get("VERIF_DEBUG"):  # reporting only: every disagreement / failure in full, for the developer
+        dbg = REPLAYS / f"{ctx.prop}-debug.json"
+        REPLAYS.mkdir(exist_ok=True)
+        dbg.write_text(json.dumps({"disagreements": ctx.disagreements, "failures": ctx.failures, "broken": broken}, indent=1, default=str))
     write_evidence(ctx, violations)
     return 1 if violations else 0
 
